@@ -136,7 +136,9 @@ def _thread_runner(args):
     import importlib
     import sys
     import threading
-    modname, fnname, jobs, nthreads, switch = args
+    modname, fnname, jobs, nthreads, switch = args[:5]
+    lockstep = len(args) > 5 and args[5]
+    baton = drv.Baton() if lockstep else None
     fn = getattr(importlib.import_module(modname), fnname)
     drv.THREADED = True
     old = sys.getswitchinterval()
@@ -147,6 +149,17 @@ def _thread_runner(args):
 
     def work(k):
         start.wait()
+        if baton is not None:
+            drv._TL.baton = (baton, k)
+            baton.begin(k)
+        try:
+            _work(k)
+        finally:
+            if baton is not None:
+                baton.done(k)
+                drv._TL.baton = None
+
+    def _work(k):
         for i in range(k, len(jobs), nthreads):
             try:
                 results[i] = fn(jobs[i])
@@ -171,7 +184,19 @@ class ThreadedHang(Exception):
     a thread cannot be interrupted from inside the process (no signal-based watchdog there)"""
 
 
-def threaded(modname, fnname, jobs, nthreads=4, switch=1e-6, procs=None, limit=300):
+def lockstep(modname, fnname, jobs, procs=None, limit=300):
+    """The jobs driven by two threads in strict alternation (drv.Baton): job 2i and job 2i+1 are alive at the same time,
+    each on its own files and library objects, and the turn changes at every operation of either history."""
+    outs = threaded(modname, fnname, jobs, nthreads=2, switch=0.005, procs=procs or max(1, min(core.NCPU // 2, len(jobs) // 2)),
+                    limit=limit, lockstep=True)
+    for o in outs:
+        for t in (o if isinstance(o, list) else [o]):
+            if isinstance(t, dict):
+                t['_desc'] = str(t.get('_desc')) + ' [two histories in lock-step, each on its own objects]'
+    return outs
+
+
+def threaded(modname, fnname, jobs, nthreads=4, switch=1e-6, procs=None, limit=300, lockstep=False):
     """Run driver `fnname` of module `modname` over `jobs` with several threads at once inside each of a few pool
     processes (thread switches every microsecond).  Every thread works on its own jobs, files and library objects: what
     one thread does may not show in what another records.  Returns the results in job order."""
@@ -179,7 +204,7 @@ def threaded(modname, fnname, jobs, nthreads=4, switch=1e-6, procs=None, limit=3
         return []
     procs = procs or max(1, min(core.NCPU // 2, len(jobs) // nthreads))
     groups = [g for g in core.split(list(range(len(jobs))), procs) if g]
-    args = [(modname, fnname, [jobs[i] for i in g], min(nthreads, len(g)), switch) for g in groups]
+    args = [(modname, fnname, [jobs[i] for i in g], min(nthreads, len(g)), switch, lockstep and len(g) >= 2) for g in groups]
     import concurrent.futures
     ex = ProcessPoolExecutor(len(args))
     futs = [ex.submit(_thread_runner, a) for a in args]
